@@ -4,6 +4,10 @@ import EdpVerif.Spec.Etf
 import EdpVerif.Lemmas.Codec
 import EdpVerif.Lemmas.Refine
 import EdpVerif.Lemmas.RefineEx
+import EdpVerif.Lemmas.DecComplete
+import EdpVerif.Lemmas.MapKept
+import EdpVerif.Lemmas.NumKey
+import EdpVerif.Lemmas.FloatAscii
 /-
 C03 — every valid external encoding of a value decodes to exactly that value.
 Oracle: `Spec.parseTop` (Spec/Etf.lean), an independent reader of the format that knows every tag and width.
@@ -126,6 +130,118 @@ example : ∃ t v, decode Ext.none [131, 105, 0, 0, 0, 2, 103, 100, 0, 1, 97, 0,
       takeN, decLatin1Body, latin1ToUtf8, utf8Encode, utf8EncodeCp, Ext.none]
   · simp [Spec.parseTop, Spec.parse, Spec.parseN, rdN, takeN, Spec.latin1, Value.mkList, envOf]
   · simp [den, denL, cps, utf8Decode, Value.mkList]
+
+/-! ### completeness: every valid encoding within the published limits IS decoded -/
+
+/-- HYPOTHESIS about the external call `str::parse::<f64>` (FLOAT_EXT, tag 99, only), the completeness half: every
+31-byte field the format's `%.20e` reading accepts is accepted by Rust's float parser.  (The harness checks it per
+generated field; with `FloatTextAgrees` the result is then the same double.  That such a field passes `from_utf8` is
+proved: `floatText_validUtf8`, Lemmas/FloatAscii.lean — the accepted text is ASCII.) -/
+def FloatTextComplete (x : Ext) : Prop :=
+  ∀ f b, Spec.parseFloatText f = some b → ∃ b', x.parseFloat f = some b'
+
+/-- HYPOTHESIS about zlib: the inflate function returns at most `extra` bytes and consumes no more than it was given -/
+def InflateBounded (x : Ext) : Prop := ∀ z out n, x.inflate z = some (out, n) → out.length ≤ x.extra ∧ n ≤ z.length
+
+/-- EVERY byte string in the language of the independent reader — any of its 30 tags in any alternative form, any
+nesting, read at any depth `d` — that stays within the library's published limits (`Spec.within`, Spec/EtfLimits.lean:
+nesting ≤ MAX_NESTING_DEPTH, counts ≤ MAX_TUPLE/LIST/MAP/BINARY_SIZE, node / module / function fields in an atom form,
+fun integer fields in SMALL_INTEGER/INTEGER form, fun pid in PID/NEW_PID form) is ACCEPTED by the decoder, which stops
+at the same byte and returns a term denoting the reader's value up to ordered-map insertion.  The decoder's fuel
+may be anything from the reader's upwards.  Nothing is assumed about the term, the value or the bytes. -/
+theorem C03_complete (x : Ext) (hpf : FloatTextAgrees x) (hfc : FloatTextComplete x) (fuel f' d : Nat) (bs : Bytes)
+    (v : Value) (r : Bytes) (hf : f' ≤ fuel) (h : Spec.parse (envOf x) f' bs = some (v, r))
+    (hw : Spec.within (envOf x) f' d bs = true) :
+    ∃ t, dec x {} fuel d bs = .ok (t, r) ∧ arrivalOf v t := by
+  obtain ⟨t, ht⟩ := (dec_complete x {} (envOf x) rfl hpf (fun f b h => ⟨floatText_validUtf8 f b h, hfc f b h⟩) (by intro i a c h; simp [List.lookup] at h)
+    (by intro i c h; simp [envOf] at h) fuel).1 f' d bs v r hf h hw
+  exact ⟨t, ht, (C03_agrees x hpf fuel f' d bs t v r r ht h).2⟩
+
+/-- non-vacuity: a LARGE_TUPLE holding a Latin-1 atom, a two-entry map arriving out of order and a STRING_EXT is in
+the language and within the limits -/
+example : Spec.parse (envOf Ext.none) 12 [105, 0, 0, 0, 3, 115, 1, 233, 116, 0, 0, 0, 2, 97, 2, 106, 97, 1, 106, 107, 0, 1, 65] =
+      some (.tuple [.atom [233], .map [(.int 2, .nil), (.int 1, .nil)], .cons [.int 65] .nil], []) ∧
+    Spec.within (envOf Ext.none) 12 0 [105, 0, 0, 0, 3, 115, 1, 233, 116, 0, 0, 0, 2, 97, 2, 106, 97, 1, 106, 107, 0, 1, 65] = true := by
+  constructor
+  · simp [Spec.parse, Spec.parseN, Spec.parseKV, rdN, takeN, Spec.latin1, Value.mkList]
+  · simp [Spec.within, Spec.withinN, Spec.withinKV, Spec.parse, Spec.parseKV, rdN, takeN, Gen.MAX_NESTING_DEPTH,
+      Gen.MAX_TUPLE_SIZE, Gen.MAX_MAP_SIZE]
+
+/-- whole messages: every complete external term the format permits (version byte, optionally one top-level COMPRESSED
+section) within the limits is decoded by `erltf::decode` to a term denoting its value -/
+theorem C03_valid_is_decoded (x : Ext) (hpf : FloatTextAgrees x) (hfc : FloatTextComplete x) (hxl : InflateBounded x)
+    (bs : Bytes) (v : Value) (hv : Spec.parseTop (envOf x) bs = some (v, []))
+    (hw : Spec.withinTop (envOf x) bs = true) : ∃ t, decode x bs = .ok t ∧ arrivalOf v t := by
+  obtain ⟨t, ht⟩ := top_complete x {} (envOf x) rfl rfl hpf (fun f b h => ⟨floatText_validUtf8 f b h, hfc f b h⟩) (by intro i a c h; simp [List.lookup] at h)
+    (by intro i c h; simp [envOf] at h) hxl bs v [] hv hw
+  simp only [if_true] at ht
+  exact ⟨t, ht, C03_decodes_to_the_value x hpf bs t v [] hv ht⟩
+
+example : Spec.parseTop (envOf Ext.none) [131, 104, 2, 100, 0, 1, 233, 98, 255, 255, 255, 255] =
+      some (.tuple [.atom [233], .int (-1)], []) ∧
+    Spec.withinTop (envOf Ext.none) [131, 104, 2, 100, 0, 1, 233, 98, 255, 255, 255, 255] = true := by
+  constructor
+  · simp [Spec.parseTop, Spec.parse, Spec.parseN, rdN, takeN, Spec.latin1, Spec.i32, envOf]
+  · simp [Spec.withinTop, Spec.within, Spec.withinN, Spec.parse, rdN, takeN, Gen.MAX_NESTING_DEPTH]
+
+/-- and exactly its value when the decoded term holds no map (or, `C03_exact_sorted_arrival`, when the entries of every
+map arrived in increasing key order) -/
+theorem C03_valid_is_decoded_exactly (x : Ext) (hpf : FloatTextAgrees x) (hfc : FloatTextComplete x)
+    (hxl : InflateBounded x) (bs : Bytes) (v : Value) (hv : Spec.parseTop (envOf x) bs = some (v, []))
+    (hw : Spec.withinTop (envOf x) bs = true) :
+    ∃ t, decode x bs = .ok t ∧ (noMaps t = true → den t = v) := by
+  obtain ⟨t, ht, _⟩ := C03_valid_is_decoded x hpf hfc hxl bs v hv hw
+  exact ⟨t, ht, fun hm => C03_exact_without_maps x hpf bs t v [] hv ht hm⟩
+
+/-- bytes after one complete valid term are reported with their number, whatever the term: the unconditional form of
+`C03_trailing_reported` (which assumed that the decoder had accepted the term) -/
+theorem C03_valid_then_trailing (x : Ext) (hpf : FloatTextAgrees x) (hfc : FloatTextComplete x) (hxl : InflateBounded x)
+    (bs : Bytes) (v : Value) (rest : Bytes) (hv : Spec.parseTop (envOf x) bs = some (v, rest)) (hne : rest ≠ [])
+    (hw : Spec.withinTop (envOf x) bs = true) : decode x bs = .error (.trailing rest.length) := by
+  obtain ⟨t, ht⟩ := top_complete x {} (envOf x) rfl rfl hpf (fun f b h => ⟨floatText_validUtf8 f b h, hfc f b h⟩) (by intro i a c h; simp [List.lookup] at h)
+    (by intro i c h; simp [envOf] at h) hxl bs v rest hv hw
+  simpa [hne, decode] using ht
+
+example : Spec.parseTop (envOf Ext.none) [131, 106, 7, 7] = some (.nil, [7, 7]) := by
+  simp [Spec.parseTop, Spec.parse]
+
+/-! ### maps: no entry is dropped or merged unless two keys compare Equal -/
+
+/-- the decoder's ordered-map insertion keeps every arriving entry — the stored entries are a permutation of the
+arriving ones — as soon as no arriving key compares `Equal` (library order) to one that arrived before it.  No law
+of the order is needed.  This is the weakest key hypothesis: the only valid MAP_EXT encodings it excludes are those with
+two keys that are distinct in Erlang but `Equal` under the library's `Ord` — an integer and the float of the same
+value (known finding, `C03_numeric_keys_merge`), and big integers that differ only in high-order zero digits from
+another integer key (KF-C11-nonminimal-big; the format permits the non-minimal width). -/
+theorem C03_map_entries_kept (kvs : List (Term × Term)) (h : arrivalDistinct kvs) :
+    (insertAll [] kvs).Perm kvs ∧ (insertAll [] kvs).length = kvs.length := by
+  have hp := insertAll_perm [] kvs (by intro q _ p hp; simp at hp) h
+  simp only [List.nil_append] at hp
+  exact ⟨hp, hp.length_eq⟩
+
+example : arrivalDistinct [(.int 2, .nil), (.atom [97], .nil), (.int 1, .nil)] := by
+  simp [arrivalDistinct, Term.cmp, Term.norm, Term.cmpN, Term.rank]
+
+/-- the known finding as a theorem (KF-C03-numeric-key-collision): the Erlang map `#{1 => 10, 1.0 => 20}` — a valid
+encoding, within every limit — is accepted, and decodes to the ONE-entry map `#{1 => 20}`: the float key compares
+`Equal` to the stored integer key, so the entry is merged.  This is exactly what the guard of `C03_map_entries_kept`
+excludes. -/
+theorem C03_numeric_keys_merge (x : Ext) :
+    decode x [131, 116, 0, 0, 0, 2, 97, 1, 97, 10, 70, 0x3F, 0xF0, 0, 0, 0, 0, 0, 0, 97, 20] =
+      .ok (.map [(.int 1, .int 20)]) ∧
+    Spec.parseTop (envOf x) [131, 116, 0, 0, 0, 2, 97, 1, 97, 10, 70, 0x3F, 0xF0, 0, 0, 0, 0, 0, 0, 97, 20] =
+      some (.map [(.int 1, .int 10), (.float 0x3FF0000000000000, .int 20)], []) ∧
+    Spec.withinTop (envOf x) [131, 116, 0, 0, 0, 2, 97, 1, 97, 10, 70, 0x3F, 0xF0, 0, 0, 0, 0, 0, 0, 97, 20] = true ∧
+    ¬ arrivalDistinct [(.int 1, .int 10), (.float 0x3FF0000000000000, .int 20)] := by
+  have hcmp : Term.cmp (.float 4607182418800017408) (.int 1) = .eq := by
+    simp [Term.cmp, Term.norm, Term.cmpN, cmpIntFloat, natDigits_one]; decide
+  refine ⟨?_, ?_, ?_, ?_⟩
+  · simp only [decode, decodeWith, List.length_cons, List.length_nil]
+    rw [Nat.add_comm _ x.extra]
+    simp [dec, decKV, ownedOnlyTags, MAX_NESTING_DEPTH, MAX_MAP_SIZE, rdU, rdN, mapInsert, hcmp]
+  · simp [Spec.parseTop, Spec.parse, Spec.parseKV, rdN]
+  · simp [Spec.withinTop, Spec.within, Spec.withinKV, Spec.parse, rdN, Gen.MAX_NESTING_DEPTH, Gen.MAX_MAP_SIZE]
+  · simp [arrivalDistinct, hcmp]
 
 /-! ### existence form: what the decoder accepts is a valid encoding -/
 
